@@ -93,6 +93,14 @@ def check_index(c):
     if n == 2:
         # defaults: size=None means the model's own num_visible
         require(torch.equal(state.generate_hilbert_space(), state.generate_hilbert_space(2)) and state.subspace_vector(2).tolist() == [1, 0], "defaults", "size default is not num_visible")
+        # sizes asked for in DESCENDING order (a larger register first, by this and by another state object), then the smaller ones again
+        from qucumber.nn_states import PositiveWaveFunction as _P2
+        other_ = _P2(5, 1, gpu=False)
+        other_.subspace_vector(19, 5); state.subspace_vector((2 ** n) - 1, n)
+        for m_ in range(min(n, 6), 0, -1):
+            for k_ in (0, 1, (2 ** m_) - 1, (2 ** m_) // 2):
+                require(state.subspace_vector(k_, m_).tolist() == expansion(k_, m_) and other_.subspace_vector(k_ % 32, 5).tolist() == expansion(k_ % 32, 5), "subspace_vector:after-larger-size",
+                        f"subspace_vector({k_}, {m_}) asked for after a larger size is not the big-endian expansion")
     return {"nontrivial": n >= 3, "labels": [f"n={n}", "type=" + c["type"]]}
 
 
